@@ -1187,7 +1187,8 @@ func ProfileLabels(rpt *Report) []string {
 		duration := measurement.Label(prof.DurationNanos, "nanoseconds")
 		totalNanos, totalUnit := measurement.Scale(rpt.total, o.SampleUnit, "nanoseconds")
 		var ratio string
-		if totalUnit == "ns" && totalNanos != 0 {
+		// The conversion to int64 is only meaningful while the total fits.
+		if totalUnit == "ns" && totalNanos != 0 && -(1<<63) < totalNanos && totalNanos < 1<<63 {
 			ratio = "(" + measurement.Percentage(int64(totalNanos), prof.DurationNanos) + ")"
 		}
 		label = append(label, fmt.Sprintf("Duration: %s, Total samples = %s %s", duration, rpt.formatValue(rpt.total), ratio))
